@@ -53,6 +53,7 @@ M=[
  ("C11.expiry-inverted","provider/auth/token.go","\t\t\tif token.AExp > time.Now().Unix() {","\t\t\tif token.AExp < time.Now().Unix() {",["C11"]),
  ("C11.play-no-permission","service/rtsp/session.go","\tif !s.checkPermission(auth.PullRight) {\n\t\tresp.StatusCode = StatusForbidden\n\t\treturn s.response(resp)\n\t}\n","",["C11"]),
  ("C11.refresh-keeps-old","provider/auth/token.go","\t\t\ttm.tokens.Delete(oldToken.AToken)\n\t\t\ttm.tokens.Delete(oldToken.RToken)\n","",["C11"]),
+ # C12.play-in-init is an EQUIVALENT mutant: onPlay itself answers 455 while no transport is set up
  ("C12.play-in-init","service/rtsp/session.go","continueProcess = !(req.Method == MethodPlay || req.Method == MethodRecord)","continueProcess = true",["C12"]),
  ("C12.teardown-no-close","service/rtsp/session.go","\t\terr = s.response(resp)\n\t\ts.Close()\n\t\treturn false, err","\t\terr = s.response(resp)\n\t\treturn false, err",["C12"]),
  ("C12.455-as-200","service/rtsp/session.go","\tif !continueProcess {\n\t\tresp.StatusCode = StatusMethodNotValidInThisState\n","\tif !continueProcess {\n",["C12"]),
@@ -80,6 +81,13 @@ M=[
  ("C19.replay-skipped","network/socket/listener/listener.go","\ts.bufferSize = s.buffer.Len()\n","\ts.bufferSize = 0\n",["C19"]),
  ("C20.open-no-disconnect","service/rtsp/pull_client.go","\t\tif err != nil { // 出现任何错误执行断链操作","\t\tif false && err != nil { // 出现任何错误执行断链操作",["C20"]),
  ("C20.exit-no-unregist","service/rtsp/pull_client.go","\t\tmedia.Unregist(c.stream)  // 从媒体中心取消注册\n","",["C20"]),
+ ("C11.token-md5","provider/auth/token.go","\t\tAToken:   security.NewSecret(),","\t\tAToken:   security.NewID().MD5(),",["C11"]),
+ ("C11.wsp-join-any","service/wsp/wsp.go","session.wsPath != wsc.Path() || session.wsUser != wsc.Username()","false",["C11"]),
+ ("C11.ws-cached-user","service/rtsp/session.go","\t\ts.user = auth.Get(s.wsconn.Username())\n","",["C11"]),
+ ("C12.wsp-pause-init","service/wsp/session.go","\t\t\treq.Method == rtsp.MethodPause ||\n","",["C12"]),
+ ("C12.wsp-setup-sticky","service/wsp/session.go","\t\tif resp.StatusCode != rtsp.StatusOK {\n\t\t\ts.transport = oldTransport","\t\tif false {\n\t\t\ts.transport = oldTransport",["C12"]),
+ ("C03.mcast-first-only","service/rtsp/multicast_proxy.go","\t}\n\tproxy.members = append(proxy.members, m)\n}","\t\tproxy.members = append(proxy.members, m)\n\t}\n}",["C03","C12"]),
+ ("C13.wsp-shared-buffer","service/wsp/session.go","\tbuf := buffers.Get().(*bytes.Buffer)\n\tbuf.Reset()\n\tdefer buffers.Put(buf)\n\tp2 := p.(*rtsp.RTPPack)","\tbuf := wspSharedBuf\n\tbuf.Reset()\n\tp2 := p.(*rtsp.RTPPack)",["C13"]),
 ]
 sel=sys.argv[1:]
 res=[]
